@@ -157,6 +157,26 @@ PROPS["C13"] = {
 }
 
 
+PROPS["C14"] = {
+    "quick": [("script", 300, 12), ("scriptfault", 500, 6)],
+    "thorough": [("script", 8000, 20), ("scriptfault", 12000, 8)],
+    "rule": "abstract programs of ADD/BIND/PUT over literal ids and $variables, valid against the reference, rendered with random legal formatting (Unicode white space and newlines around commands and arguments, comments with structural characters inside, blanks before '(', optional nu prefix, hex digits in random case with dashes/blanks/newlines between them); the text is deployed on one graph, the same calls are issued directly on a second one, both are observed, compared and drained; plus single-fault corruptions (one character deleted / inserted / replaced) classified by the model's parser; non-trivial = a history with >= 5 judged calls",
+    "nontrivial": "any5",
+    "modelled": CORE_MODELLED + ["modelled, not verified: the regex crate's semantics for the four patterns of script.rs (hand-written recognisers), str::trim (White_Space table), str::split, usize::from_str, u8::from_str_radix, HashMap as the variable table, anyhow's context text (the command number is extracted)"],
+}
+
+
+PROPS["C07"] = {
+    "asan": True,
+    "quick": [("abuse", 240, 100), ("gc", 80, 100), ("limits", 30, 80), ("slice", 40, 30), ("merge", 60, 0), ("ser", 20, 60), ("render", 30, 40)],
+    "thorough": [("abuse", 6000, 250), ("gc", 1500, 250), ("limits", 300, 150), ("cycle", 56, 300), ("slice", 800, 50), ("merge", 2000, 0), ("mergebroken", 1000, 0), ("ser", 300, 120), ("render", 500, 80), ("fork", 500, 150), ("script", 1000, 12), ("scriptfault", 2000, 6)],
+    "rule": "every operation file is executed by a harness built with AddressSanitizer (debug assertions on): valid profiles and the abuse profile (ids cap, cap+1, cap+1000, usize::MAX; N+1 labels; groups driven to 17-19 members; a 15th-17th group; calls on absent vertices; bind v v); per call the outcome (ok / panic) must equal the model's until the first panic of a handle, after which the handle is only soaked (calls keep being executed under the sanitizer, no model); any sanitizer report, abort or signal is a violation with the operation file as replay; non-trivial = a history with >= 5 judged calls",
+    "nontrivial": "any5",
+    "modelled": CORE_MODELLED + ["PARTIAL: the unsafe code of emap/micromap/microstack and the allocator are examined under AddressSanitizer on the generated inputs, not proved; MaybeUninit::assume_init in microstack::Stack::new (language-level UB that ASan does not see) is recorded as an observation about the dependency"],
+    "partial": ["memory safety of the containers' unsafe code is outside what a Lean model can exhibit: examined under ASan, not proved"],
+}
+
+
 def nontrivial(prop, h):
     first, last, coll, readds, overw, nextids, judged = h[:7]
     kind = PROPS[prop].get("nontrivial", "any")
